@@ -16,8 +16,9 @@ META = {
     "bounds": [
         "distorted concrete meshes with interior points for hex8/20/27, quad4/8/9, tet4, straight-edged tet10, tri3, tri6 (3-D and plane strain); symbolic affine map Fbar (9 / 4 variables)",
         "(a) nodal values u = (Fbar - I) X give F = Fbar at every quadrature point (1e-9); (b) with a uniform stress Pbar (9 symbolic components; this is what any material returns at a uniform F) the internal "
-        "nodal forces vanish at every interior point (patch test) and, for the real dof.uniaxial / dof.biaxial partitions on boundary-aligned distorted meshes, on all free unknowns when Pbar has only the "
-        "loaded normal components; (c) tools.force on the moved face = Pbar N A0",
+        "nodal forces vanish at every interior point (patch test); (c) the real dof.uniaxial / dof.biaxial on a 1 x 2 x 4 block (distorted, boundary-aligned) for every choice of loaded axes, with and "
+        "without symmetry planes, symbolic moves: the prescribed unknowns and values are the restriction of a homogeneous stretch, the moved faces / symmetry planes are complete, all free unknowns are in "
+        "equilibrium when Pbar has only the loaded normal components, tools.force on each moved face = P_cc times its reference area",
         "(d) ViewMaterial uniaxial / planar / biaxial with scipy.optimize.root as a contract stub (returns x with fun(x) = 0) and ViewMaterialIncompressible: the returned curve value is P11 of the real model at "
         "diag(l1, x, x) (resp. the planar / biaxial states) with the transverse stress zero, resp. P11 - l3/l1 P33",
     ],
@@ -119,37 +120,74 @@ def case_patch(ctx, kind):
     ctx.equal("internal_forces_vanish_at_interior_points", r[interior], np.zeros((len(interior), d), dtype=int), tol=1e-9)
 
 
-def case_loadcase(ctx, kind, which):
+def case_loadcase(ctx, kind, which, axes=(0, 1), sym=True):
+    """the real dof.uniaxial / dof.biaxial on a block with UNEQUAL edge lengths (1 x 2 x 4), for every choice of loaded axes and
+    with / without symmetry planes: (1) the prescribed unknowns and their values are the restriction of a homogeneous stretch
+    u_c = s_c (X_c - o_c) (loaded axes: s_c, o_c from the moved / fixed faces; other axes: only u_c = 0 on the plane X_c = 0),
+    the moved faces are complete; (2) with the uniform stress of a homogeneous state (only loaded normal components) all free
+    unknowns are in equilibrium; (3) tools.force on each moved face is P_cc times the reference area of that face"""
+    edge = np.array([1.0, 2.0, 4.0])
     with ctx.concrete():
         m = patch_mesh(kind)
+        m.points[:] = m.points * edge[: m.dim]
         region = REG[kind](m)
         d = m.dim
         field = fem.FieldContainer([fem.Field(region, dim=3) if d == 3 else fem.FieldPlaneStrain(region, dim=2)])
-        if which == "uniaxial":
-            bounds, lc = fem.dof.uniaxial(field, move=0.2, clamped=False)
-        else:
-            bounds, lc = fem.dof.biaxial(field, moves=(0.2, 0.1), clampes=(False, False))
     field[0].values = ctx.const_array(field[0].values)
-    Pbar = np.zeros((3, 3), dtype=object if ctx.sym else float)
-    Pbar[0, 0] = ctx.var("P11", -2, 2)
-    if which == "biaxial":
-        Pbar[1, 1] = ctx.var("P22", -2, 2)
+    X = m.points
+    hi = X.max(axis=0)
+    lo = X.min(axis=0)
+    symt = (sym, sym, sym)
+    if which == "uniaxial":
+        loaded = [axes[0]]
+        moves = [ctx.var("move", 0.05, 0.5)]
+        bounds, lc = fem.dof.uniaxial(field, move=moves[0], axis=axes[0], clamped=False, sym=sym)
+        moved = {axes[0]: bounds["move"]}
+    else:
+        loaded = list(axes)
+        moves = [ctx.var("move_0", 0.05, 0.5), ctx.var("move_1", 0.05, 0.5)]
+        bounds, lc = fem.dof.biaxial(field, moves=tuple(moves), axes=tuple(axes), clampes=(False, False), sym=sym)
+        moved = {ax: bounds["move-right-%d" % ax] for ax in axes}
+    dof0 = [int(k) for k in lc["dof0"]]
+    ext0 = np.asarray(lc["ext0"])
+    got, exp, on_plane = [], [], True
+    for k, v in zip(dof0, ext0):
+        p, c = divmod(k, d)
+        got.append(v)
+        if c in loaded:
+            mv = moves[loaded.index(c)]
+            if which == "uniaxial" or symt[c]:
+                o = 0.0 if symt[c] else lo[c]
+                exp.append(mv * float((X[p, c] - o) / (hi[c] - o)))
+            else:
+                o = (lo[c] + hi[c]) / 2
+                exp.append(mv * float((X[p, c] - o) / (hi[c] - o)))
+        else:
+            exp.append(0 * moves[0])
+            on_plane = on_plane and bool(symt[c]) and abs(X[p, c]) < 1e-12
+    dt = object if ctx.sym else float
+    ctx.equal("prescribed_values_are_the_restriction_of_a_homogeneous_stretch", np.array(got, dtype=dt), np.array(exp, dtype=dt), tol=1e-12)
+    ctx.check_concrete("transverse_unknowns_are_prescribed_on_symmetry_planes_only", on_plane)
+    complete = all((p * d + c) in set(dof0) for c in loaded for p in range(m.npoints) if abs(X[p, c] - hi[c]) < 1e-12)
+    complete = complete and all((p * d + c) in set(dof0) for c in range(d) if symt[c] for p in range(m.npoints) if abs(X[p, c]) < 1e-12)
+    ctx.check_concrete("moved_faces_and_symmetry_planes_are_complete", complete)
+    ctx.check_concrete("partition_is_complementary", sorted(dof0 + [int(k) for k in lc["dof1"]]) == list(range(m.npoints * d)))
+    Pbar = np.zeros((3, 3), dtype=dt)
+    for c in loaded:
+        Pbar[c, c] = ctx.var("P%d%d" % (c, c), -2, 2)
     if d == 2:
         Pbar[2, 2] = ctx.var("P33", -2, 2)  # plane strain: out-of-plane stress does no work
     body = fem.SolidBody(uniform_stress_material(ctx, Pbar), field)
     rs = body.assemble.vector(field)
-    r = np.asarray(rs.toarray(), dtype=object if ctx.sym else float).reshape(-1)
+    r = np.asarray(rs.toarray(), dtype=dt).reshape(-1)
     ctx.equal("internal_forces_vanish_on_all_free_unknowns", r[lc["dof1"]], np.zeros(len(lc["dof1"]), dtype=int), tol=1e-9)
-    # reaction force on the moved face = P11 * A0 (A0 = 1: unit square / cube)
-    move = bounds["move"] if which == "uniaxial" else bounds["move-right-0"]
-    f = fem.tools.force(field, r, move)
-    ctx.equal("reaction_on_moved_face_is_stress_times_reference_area", np.asarray(f)[0], Pbar[0, 0], tol=1e-9)
-    if which == "biaxial":
-        f2 = fem.tools.force(field, r, bounds["move-right-1"])
-        ctx.equal("reaction_on_second_moved_face", np.asarray(f2)[1], Pbar[1, 1], tol=1e-9)
+    for c in loaded:
+        area = float(np.prod([hi[a] - lo[a] for a in range(d) if a != c]))
+        f = fem.tools.force(field, r, moved[c])
+        ctx.equal("reaction_on_moved_face_%d_is_stress_times_reference_area" % c, np.asarray(f)[c], Pbar[c, c] * area, tol=1e-9)
 
 
-def case_view(ctx, mode, incompressible=False):
+def case_view(ctx, mode, incompressible=False, explicit=False):
     """ViewMaterial: the root finder is a contract stub.  To avoid an equality assumption the roles are swapped: the
     transverse stretch x is a free variable and the bulk modulus is DEFINED such that x is the root (P33 is linear
     in bulk); so every (stretch, root) pair is covered and 'fun(x) = 0' becomes an obligation, not an assumption."""
@@ -159,10 +197,13 @@ def case_view(ctx, mode, incompressible=False):
     l1 = ctx.var("lam", 1.1, 1.6)
     dt = object if ctx.sym else float
     lam = np.array([l1], dtype=dt)
+    # explicit=True: the view is created for OTHER stretches and the curve is requested for `lam` as a method argument
+    lam_init = np.array([ctx.var("lam_init", 1.1, 1.6)], dtype=dt) if explicit else lam
+    args = (lam,) if explicit else ()
     if incompressible:
         umat = fem.NeoHooke(mu=mu, bulk=ctx.var("bulk", 2, 20))
-        view = fem.ViewMaterialIncompressible(umat, ux=lam, ps=lam, bx=lam)
-        stretch, force, label = getattr(view, mode)()
+        view = fem.ViewMaterialIncompressible(umat, ux=lam_init, ps=lam_init, bx=lam_init)
+        stretch, force, label = getattr(view, mode)(*args)
         l2 = {"uniaxial": 1 / (l1 ** 0.5), "planar": 1 + 0 * l1, "biaxial": l1}[mode]
         l3 = {"uniaxial": 1 / (l1 ** 0.5), "planar": 1 / l1, "biaxial": 1 / l1**2}[mode]
         Fd = np.zeros((3, 3, 1, 1), dtype=dt)
@@ -186,14 +227,16 @@ def case_view(ctx, mode, incompressible=False):
             xs = np.array([x], dtype=object)
             calls.append((xs, np.asarray(fun(xs)).reshape(-1)))
             return types.SimpleNamespace(success=True, x=xs)
+        # float mode: the real root finder runs; the recorded residual is the root function at the TRUE root x (bulk is defined
+        # such that the transverse stress at diag(l1, x, x) vanishes), the same quantity as in symbolic mode
         r = orig(fun, x0, **kw)
-        calls.append((np.asarray(r.x), np.asarray(fun(r.x)).reshape(-1)))
+        calls.append((np.asarray(r.x), np.asarray(fun(np.array([x], dtype=float))).reshape(-1)))
         return r
 
     so.root = root_stub
     try:
-        view = fem.ViewMaterial(umat, ux=lam, ps=lam, bx=lam)
-        stretch, force, label = getattr(view, mode)(**({} if ctx.sym else {"tol": 1e-13}))
+        view = fem.ViewMaterial(umat, ux=lam_init, ps=lam_init, bx=lam_init)
+        stretch, force, label = getattr(view, mode)(*args, **({} if ctx.sym else {"tol": 1e-13}))
     finally:
         so.root = orig
     xr = calls[-1][0][0]
@@ -221,10 +264,16 @@ def cases(tier):
     kinds = ["quad4", "tri3", "hex8", "tet4", "quad8", "tri6"] + (["quad9", "tet10", "hex20", "hex27"] if tier == "thorough" else [])
     for k in kinds:
         out.append(("patch", case_patch, {"kind": k}))
-    for k in ["quad4", "hex8"] + (["quad8", "hex20"] if tier == "thorough" else []):
-        for which in ("uniaxial", "biaxial"):
-            out.append(("loadcase", case_loadcase, {"kind": k, "which": which}))
+    lcs = [("quad4", "uniaxial", (0,), True), ("quad4", "uniaxial", (1,), False), ("quad4", "biaxial", (0, 1), True), ("quad4", "biaxial", (1, 0), False),
+           ("hex8", "uniaxial", (0,), True), ("hex8", "uniaxial", (2,), False), ("hex8", "biaxial", (0, 1), True), ("hex8", "biaxial", (0, 2), True), ("hex8", "biaxial", (2, 1), False)]
+    if tier == "thorough":
+        lcs += [("hex8", "uniaxial", (1,), True), ("hex8", "uniaxial", (1,), False), ("hex8", "biaxial", (1, 2), True), ("hex8", "biaxial", (1, 0), True), ("hex8", "biaxial", (0, 2), False), ("hex8", "biaxial", (2, 0), True),
+                ("quad8", "uniaxial", (1,), True), ("quad8", "biaxial", (0, 1), False), ("hex20", "uniaxial", (2,), True), ("hex20", "biaxial", (0, 2), True), ("hex20", "biaxial", (1, 2), False)]
+    for k, which, axes, sym in lcs:
+        out.append(("loadcase", case_loadcase, {"kind": k, "which": which, "axes": list(axes), "sym": sym}))
     for mode in ("uniaxial", "planar", "biaxial"):
         out.append(("view", case_view, {"mode": mode, "max_paths": 16}))
         out.append(("view", case_view, {"mode": mode, "incompressible": True, "max_paths": 16}))
+        out.append(("view", case_view, {"mode": mode, "explicit": True, "max_paths": 16}))
+        out.append(("view", case_view, {"mode": mode, "incompressible": True, "explicit": True, "max_paths": 16}))
     return out
